@@ -128,6 +128,9 @@ fixed("C10", "pq-binary-delta-utf8-validated", "a6a95659f", "BINARY columns with
 fixed("C10", "pq-v2-is-compressed-ignored", "274a5a0ab", "data page v2 is_compressed=false was ignored when the chunk declares a codec", [])
 fixed("C11", "pq-pruning-deprecated-stats-unsigned", "1d88cdccf", "row-group pruning trusted deprecated signed-order min/max on unsigned columns and pruned groups containing the searched value", [])
 fixed("C11", "glob-absolute-path-root", "232040201", "globs over absolute local paths were resolved relative to the working directory", [])
+fixed("C17", "csv-last-record-without-newline-dropped", "901a81dae", "read_csv dropped the last record of a file not ending in a line break", ["C11"])
+fixed("C17", "csv-inference-ignores-unterminated-last-record", "8f587fc55", "dialect/type inference ignored the final record without line break even when the whole file was in the sample", [])
+fixed("C17", "csv-partial-record-leading-empty-fields-lost", "5395bbc8c", "leading empty fields of a record split across reads were lost (clear_completed discarded field ends of a partial record with no bytes yet), so results depended on read chunking/batch size", ["C03", "C16"])
 fixed("C08", "double-sort-key-shift", "78d51c9d1", "ORDER BY on DOUBLE mis-ordered values differing only in the low 32 mantissa bits (sort key used bits >> 31)", ["C01"])
 fixed("C03", "ctas-empty-input-no-table", "ff2c19832", "CREATE TABLE AS over an input that produced no batches did not create the table", ["C14"])
 fixed("C02", "join-condition-extractor-drops-comparison", "e1c0bff10", "comparisons whose one operand references both join sides were dropped by join-condition extraction (predicate silently not applied)", ["C01", "C06"])
